@@ -383,10 +383,14 @@ def coq_eval(prop: str, imports: str, exprs: list[str], *, timeout: int = 600, t
 
 
 def load_known() -> list[dict]:
+    """known_findings.json (committed) plus per-property fragments known/Cnn.json."""
+    out = []
     f = VERIF / "known_findings.json"
-    if not f.exists():
-        return []
-    return json.loads(f.read_text())["findings"]
+    if f.exists():
+        out += json.loads(f.read_text())["findings"]
+    for g in sorted((VERIF / "known").glob("*.json")) if (VERIF / "known").exists() else []:
+        out += json.loads(g.read_text())["findings"]
+    return out
 
 
 @dataclass
